@@ -31,14 +31,18 @@ VNS = {"1.0": CELLML10, "1.1": CELLML11}
 
 
 class N:
-    """element: ns, name, attrs = list of [ns, name, value] in document order, kids = list of N | str (text)"""
-    __slots__ = ("ns", "name", "attrs", "kids")
+    """element: ns, name, attrs = list of [ns, name, value] in document order, kids = list of N | str (text);
+    decls = xmlns declarations FORCED onto the element by the serialiser [(prefix, uri)] (used or not);
+    eprefix = write the element (and its descendants of the same namespace) with this prefix instead of a default namespace"""
+    __slots__ = ("ns", "name", "attrs", "kids", "decls", "eprefix")
 
-    def __init__(self, ns, name, attrs=None, kids=None):
+    def __init__(self, ns, name, attrs=None, kids=None, decls=None, eprefix=None):
         self.ns = ns
         self.name = name
         self.attrs = [list(a) for a in (attrs or [])]
         self.kids = list(kids or [])
+        self.decls = list(decls or [])
+        self.eprefix = eprefix
 
     def get(self, name, ns=""):
         for a in self.attrs:
@@ -50,7 +54,8 @@ class N:
         return [k for k in self.kids if isinstance(k, N)]
 
     def copy(self):
-        return N(self.ns, self.name, [list(a) for a in self.attrs], [k.copy() if isinstance(k, N) else k for k in self.kids])
+        return N(self.ns, self.name, [list(a) for a in self.attrs], [k.copy() if isinstance(k, N) else k for k in self.kids],
+                 list(self.decls), self.eprefix)
 
     def walk(self):
         yield self
@@ -159,12 +164,25 @@ def serialize(root, opts=None):
                     s.append(a[0])
         return s
 
-    def go(n, scope, default, depth, is_root):
+    def go(n, scope, default, depth, is_root, epfx):
         scope = dict(scope)
         decls = []
-        if n.ns != default:
-            decls.append(("", n.ns))
-            default = n.ns
+        for p, u in n.decls:                      # forced declarations (possibly unused, possibly shadowing)
+            scope[p] = u
+            decls.append((p, u))
+        ep = n.eprefix or epfx.get(n.ns)
+        if ep is not None and (n.eprefix or scope.get(ep) == n.ns):
+            if scope.get(ep) != n.ns:
+                scope[ep] = n.ns
+                decls.append((ep, n.ns))
+            epfx = dict(epfx)
+            epfx[n.ns] = ep
+            tag = ep + ":" + n.name
+        else:
+            if n.ns != default:
+                decls.append(("", n.ns))
+                default = n.ns
+            tag = n.name
         want = []
         if is_root:
             want += [u for u in opts.get("root_decl", [])]
@@ -172,14 +190,15 @@ def serialize(root, opts=None):
             want += needed_below(n)
         want += [a[0] for a in n.attrs if a[0] not in ("", XMLNS)]
         for u in want:
-            if u not in scope.values():
+            if u not in [uu for pp, uu in scope.items() if pp != ""]:
                 p = fresh(u, scope)
                 scope[p] = u
                 decls.append((p, u))
         inv = {}
         for p, u in scope.items():
-            inv.setdefault(u, p)
-        parts = ["<" + n.name]
+            if p != "":
+                inv.setdefault(u, p)
+        parts = ["<" + tag]
         for p, u in decls:
             parts.append(' xmlns%s="%s"' % ((":" + p) if p else "", esc_attr(u)))
         for a in n.attrs:
@@ -194,7 +213,7 @@ def serialize(root, opts=None):
             out.append(ind + "".join(parts) + "/>\n")
             return
         if all(isinstance(k, str) for k in n.kids):
-            out.append(ind + "".join(parts) + ">" + "".join(esc_text(k) for k in n.kids) + "</" + n.name + ">\n")
+            out.append(ind + "".join(parts) + ">" + "".join(esc_text(k) for k in n.kids) + "</" + tag + ">\n")
             return
         out.append(ind + "".join(parts) + ">\n")
         for i, k in enumerate(n.kids):
@@ -203,11 +222,204 @@ def serialize(root, opts=None):
             else:
                 if opts.get("comments") and (i + depth) % 3 == 1:
                     out.append(ind + "  <!-- c%d -->\n" % i)
-                go(k, scope, default, depth + 1, False)
-        out.append(ind + "</" + n.name + ">\n")
+                go(k, scope, default, depth + 1, False, epfx)
+        out.append(ind + "</" + tag + ">\n")
 
-    go(root, {}, None, 0, True)
+    go(root, {}, None, 0, True, {})
     return "".join(out)
+
+
+# ------------------------------------------------------------------------------------------------ raw layer
+# what MathNsDefs.v works on: qualified names, xmlns declarations, prefixes
+
+class R:
+    """raw element: qname, attrs = [(qname, value)] in document order INCLUDING xmlns / xmlns:p, kids = R | str"""
+    __slots__ = ("qname", "attrs", "kids")
+
+    def __init__(self, qname, attrs):
+        self.qname = qname
+        self.attrs = attrs
+        self.kids = []
+
+
+def raw_parse(text):
+    """non-namespace-aware expat parse -> R, or None"""
+    import xml.parsers.expat
+    p = xml.parsers.expat.ParserCreate()
+    p.ordered_attributes = True
+    stack, roots = [], []
+
+    def start(name, attrs):
+        e = R(name, [(attrs[i], attrs[i + 1]) for i in range(0, len(attrs), 2)])
+        (stack[-1].kids if stack else roots).append(e)
+        stack.append(e)
+
+    def end(name):
+        stack.pop()
+
+    def chars(data):
+        if stack:
+            if stack[-1].kids and isinstance(stack[-1].kids[-1], str):
+                stack[-1].kids[-1] += data
+            else:
+                stack[-1].kids.append(data)
+    p.StartElementHandler, p.EndElementHandler, p.CharacterDataHandler = start, end, chars
+    try:
+        p.Parse(text if isinstance(text, (bytes, str)) else bytes(text), True)
+    except Exception:        # noqa: BLE001
+        return None
+    return roots[0] if roots else None
+
+
+def raw_canon(r):
+    """the text ocaml/transform/driver.ml prints for MathNsDefs.stored_math: (r s<qname> ( decls ) ( attrs ) ( kids ))"""
+    if isinstance(r, str):
+        return "(t %s)" % S(r.strip(" \t\n\r"))
+    ds = sorted(S(k + "=" + v) for k, v in r.attrs if k == "xmlns" or k.startswith("xmlns:"))
+    ats = sorted(S(k + "=" + v) for k, v in r.attrs if not (k == "xmlns" or k.startswith("xmlns:")))
+    kids = [k for k in r.kids if not (isinstance(k, str) and not k.strip(" \t\n\r"))]
+    return "(r %s (%s ) (%s ) (%s ))" % (S(r.qname), "".join(" " + d for d in ds), "".join(" " + a for a in ats),
+                                        "".join(" " + raw_canon(k) for k in kids))
+
+
+def _nsx(r, scope):
+    """R + scope (prefix -> uri, '' = default) -> the nxml text of ocaml/transform/driver.ml"""
+    if isinstance(r, str):
+        return "(t %s)" % S(r.strip(" \t\n\r"))
+    scope = dict(scope)
+    decls = []
+    for k, v in r.attrs:
+        if k == "xmlns":
+            scope[""] = v
+            decls.append(("", v))
+        elif k.startswith("xmlns:"):
+            scope[k[6:]] = v
+            decls.append((k[6:], v))
+    if ":" in r.qname:
+        pfx, local = r.qname.split(":", 1)
+        ns = scope.get(pfx, "?unbound")
+    else:
+        pfx, local, ns = "", r.qname, scope.get("", "")
+    ats = []
+    for k, v in r.attrs:
+        if k == "xmlns" or k.startswith("xmlns:"):
+            continue
+        if ":" in k:
+            ap, al = k.split(":", 1)
+            ats.append("(a %s %s %s %s)" % (S(ap), S(XMLNS if ap == "xml" else scope.get(ap, "?unbound")), S(al), S(v)))
+        else:
+            ats.append("(a s s %s %s)" % (S(k), S(v)))
+    kids = [k for k in r.kids if not (isinstance(k, str) and not k.strip(" \t\n\r"))]
+    return "(n %s %s %s (%s ) (%s ) (%s ))" % (S(pfx), S(ns), S(local), "".join(" (d %s %s)" % (S(p), S(u)) for p, u in decls),
+                                              "".join(" " + a for a in ats), "".join(" " + _nsx(k, scope) for k in kids))
+
+
+def math_blocks(text):
+    """the math elements of a 1.x document as the parser meets them: [(component name, nxml text)] in document order
+    (children named math in the MathML namespace of the 1.x component children of the root), or None"""
+    root = raw_parse(text)
+    if root is None:
+        return None
+
+    def scope_of(r, scope):
+        scope = dict(scope)
+        for k, v in r.attrs:
+            if k == "xmlns":
+                scope[""] = v
+            elif k.startswith("xmlns:"):
+                scope[k[6:]] = v
+        return scope
+
+    def resolved(r, scope):
+        if ":" in r.qname:
+            pfx, local = r.qname.split(":", 1)
+            return scope.get(pfx, "?unbound"), local
+        return scope.get("", ""), r.qname
+    s0 = scope_of(root, {})
+    out = []
+    for c in root.kids:
+        if isinstance(c, str):
+            continue
+        s1 = scope_of(c, s0)
+        ns, local = resolved(c, s1)
+        if ns not in (CELLML10, CELLML11) or local != "component":
+            continue
+        cname = dict(c.attrs).get("name")
+        for m in c.kids:
+            if isinstance(m, str):
+                continue
+            s2 = scope_of(m, s1)
+            if resolved(m, s2) == (MATHML, "math"):
+                out.append((cname, _nsx(m, s1)))
+    return out
+
+
+def cellml_prefix_foreign(text):
+    """some math element (or an element below it) binds the prefix cellml to a namespace that is neither CellML 1.x nor
+    2.0: setNamespacePrefix("cellml") then resolves to that namespace -- visible only to the declaration layer"""
+    root = raw_parse(text)
+    if root is None:
+        return False
+
+    def below(r, inside):
+        if isinstance(r, str):
+            return False
+        inside = inside or r.qname.split(":")[-1] == "math"
+        if inside and any(k == "xmlns:cellml" and v not in (CELLML10, CELLML11, CELLML20) for k, v in r.attrs):
+            return True
+        return any(below(k, inside) for k in r.kids)
+    return below(root, False)
+
+
+def stored_math_raw(math_string):
+    """a component's math string as stored by the parser -> [raw canonical text of each math element], or None"""
+    r = raw_parse(b"<w>" + (math_string if isinstance(math_string, bytes) else math_string.encode("utf-8")) + b"</w>")
+    if r is None:
+        return None
+    return [raw_canon(k) for k in r.kids if not isinstance(k, str)]
+
+
+NS_MODES = ["plain", "math_unused", "inner_unused", "component_decl", "other_version_unused", "prefixed_mathml", "shadowed_on_cn",
+            "cmeta_on_apply"]
+
+
+def ns_variation(root, rng):
+    """forces namespace declarations onto the math blocks of a 1.x document (content neutral, except cmeta_on_apply which
+    is only applied when asked for): where the legacy cellml prefix is declared x whether the block uses it.
+    -> (new root, list of modes applied)"""
+    root = root.copy()
+    V = root.ns
+    other = CELLML11 if V == CELLML10 else CELLML10
+    applied = []
+    for c in root.elems():
+        if not (c.ns == V and c.name == "component"):
+            continue
+        maths = [k for k in c.elems() if k.ns == MATHML and k.name == "math"]
+        for m in maths:
+            uses = any(a[0] == V for x in m.walk() for a in x.attrs)
+            mode = rng.choice(NS_MODES[:-1])
+            inner = [x for x in m.walk() if x is not m]
+            if mode == "math_unused" and not uses:
+                m.decls.append((rng.choice(["cellml", "c"]), V))
+            elif mode == "inner_unused" and inner:
+                rng.choice(inner).decls.append((rng.choice(["cellml", "cml"]), V))
+            elif mode == "component_decl":
+                if not any(p == "cellml" for p, _ in c.decls):
+                    c.decls.append(("cellml", V))
+            elif mode == "other_version_unused":
+                (rng.choice(inner) if inner and rng.random() < 0.5 else m).decls.append(("old", other))
+            elif mode == "prefixed_mathml":
+                m.eprefix = rng.choice(["m", "mathml"])
+            elif mode == "shadowed_on_cn":
+                # the prefix cellml is bound to the OTHER 1.x namespace on math and re-bound on the elements that use it
+                m.decls.append(("cellml", other))
+                for x in inner:
+                    if any(a[0] == V for a in x.attrs):
+                        x.decls.append(("cellml", V))
+            else:
+                mode = "plain"
+            applied.append("ns:" + mode)
+    return root, applied
 
 
 # ------------------------------------------------------------------------------------------------ to1x
@@ -665,6 +877,33 @@ def hand_documents():
         add("math_other_attrs_" + t, _m(ver, '<component name="c"><variable name="x" units="second"/>' + MATH +
                                             '<apply cmeta:id="eq1"><eq/><ci>x</ci><cn cellml:units="second" cellml:foo="f" type="real" cmeta:id="n1">1</cn></apply></math>'
                                             + MATH + '<apply><eq/><ci>x</ci><cn type="real" cellml:units="second">2</cn></apply></math></component>'), "legal")
+    # where the legacy prefix is declared x whether the math block uses it
+    M, C10, C11, C20 = MATHML, CELLML10, CELLML11, CELLML20
+
+    def nsdoc(root_attrs, maths, ver="1.0"):
+        return ('<?xml version="1.0"?>\n<model xmlns="%s" name="m"%s><component name="c"><variable name="x" units="second"/>%s</component>'
+                '<component name="d"><variable name="y" units="second"/>%s</component></model>\n') % (VNS[ver], root_attrs, "".join(maths), maths[-1].replace(">x</ci>", ">y</ci>").replace(">x</m:ci>", ">y</m:ci>"))
+    ci_only = '<apply><eq/><ci>x</ci><ci>x</ci></apply>'
+    with_cn = '<apply><eq/><ci>x</ci><cn %s:units="second">1</cn></apply>'
+    add("ns_math_unused", nsdoc('', ['<math xmlns="%s" xmlns:cellml="%s">%s</math>' % (M, C10, ci_only)]), "legal", "valid")
+    add("ns_inner_unused", nsdoc('', ['<math xmlns="%s"><apply xmlns:cellml="%s"><eq/><ci>x</ci><ci xmlns:c="%s">x</ci></apply></math>' % (M, C10, C11)]), "legal", "valid")
+    add("ns_model_used", nsdoc(' xmlns:cellml="%s"' % C10, ['<math xmlns="%s">%s</math>' % (M, with_cn % "cellml")]), "legal", "valid")
+    add("ns_model_unused", nsdoc(' xmlns:cellml="%s"' % C10, ['<math xmlns="%s">%s</math>' % (M, ci_only)]), "legal", "valid")
+    add("ns_used_in_other_block", nsdoc('', ['<math xmlns="%s" xmlns:cellml="%s">%s</math>' % (M, C10, with_cn % "cellml"),
+                                            '<math xmlns="%s" xmlns:cellml="%s">%s</math>' % (M, C10, ci_only),
+                                            '<math xmlns="%s">%s</math>' % (M, ci_only)]), "legal", "valid")
+    add("ns_component_decl", '<?xml version="1.0"?>\n<model xmlns="%s" name="m"><component name="c" xmlns:cellml="%s"><variable name="x" units="second"/>'
+                             '<math xmlns="%s">%s</math><math xmlns="%s">%s</math></component></model>\n' % (C11, C11, M, with_cn % "cellml", M, ci_only), "legal", "valid")
+    add("ns_two_prefixes", nsdoc('', ['<math xmlns="%s"><apply><eq/><ci xmlns:c="%s">x</ci><cn xmlns:d="%s" d:units="second">2</cn></apply></math>' % (M, C10, C11)]), "legal", "valid")
+    add("ns_cmeta_copied", nsdoc(' xmlns:cmeta="%s"' % CMETA, ['<math xmlns="%s"><apply cmeta:id="e1"><eq/><ci>x</ci><ci>x</ci></apply></math>' % M]), "legal")
+    add("ns_math_declares_20", nsdoc(' xmlns:old="%s"' % C10, ['<math xmlns="%s" xmlns:cellml="%s">%s</math>' % (M, C20, with_cn % "old")]), "legal", "valid")
+    add("ns_shadowed", nsdoc('', ['<math xmlns="%s" xmlns:cellml="%s"><apply><eq/><ci>x</ci><cn xmlns:cellml="%s" cellml:units="second">1</cn></apply></math>' % (M, C11, C10)]), "legal", "valid")
+    add("ns_prefixed_mathml", nsdoc('', ['<m:math xmlns:m="%s" xmlns:cellml="%s"><m:apply><m:eq/><m:ci>x</m:ci><m:cn cellml:units="second">1</m:cn></m:apply></m:math>' % (M, C10),
+                                        '<m:math xmlns:m="%s" xmlns:cellml="%s"><m:apply><m:eq/><m:ci>x</m:ci><m:ci>x</m:ci></m:apply></m:math>' % (M, C10)]), "legal")
+    # (the Validator's MathML DTD check does not accept prefixed MathML element names, in a 2.0 document either)
+    add("ns_default_1x_inside_math", nsdoc('', ['<math xmlns="%s"><apply xmlns="%s"><eq/><ci>x</ci></apply></math>' % (M, C10)]))
+    add("ns_cellml_bound_elsewhere", nsdoc('', ['<math xmlns="%s" xmlns:cellml="http://other"><apply><eq/><ci>x</ci><cn xmlns:o="%s" o:units="second">1</cn></apply></math>' % (M, C10)]))
+    add("ns_math_own_attribute", nsdoc('', ['<math xmlns="%s" xmlns:cellml="%s" cellml:note="n">%s</math>' % (M, C10, ci_only)]))
     # imports (1.1), also written in a 1.0 document
     for ver in ("1.1", "1.0"):
         t = ver.replace(".", "")
